@@ -28,6 +28,9 @@ func mkErr(msg Str, wrapped ...Value) Value {
 	return Iface{T: errNamed, V: ErrVal{Msg: msg, Wrapped: wrapped}}
 }
 
+// MergoOpt models a mergo option value produced by a call.
+type MergoOpt struct{ Name string }
+
 // IgnoreOpt models a cmpopts option.
 type IgnoreOpt struct{ Fields []string }
 
@@ -580,16 +583,40 @@ func externals() map[string]ExtFn {
 			}
 			src = *sp.P
 		}
+		// options: only the ones the model understands
+		appendSlice, transformers := false, false
+		m.mergoNoDeref = false
+		for _, o := range SliceValues(a[2]) {
+			switch x := o.(type) {
+			case *ssa.Function:
+				switch x.Name() {
+				case "WithAppendSlice":
+					appendSlice = true
+				case "WithoutDereference":
+					m.mergoNoDeref = true
+				default:
+					panic(m.undecided("mergo option %s is not modelled", x.Name()))
+				}
+			case MergoOpt:
+				if x.Name == "transformers" {
+					transformers = true
+				}
+			default:
+				panic(m.undecided("a mergo option of kind %T is not modelled", o))
+			}
+		}
+		if !appendSlice {
+			panic(m.undecided("mergo.Merge without WithAppendSlice is not modelled"))
+		}
 		skip := func(t types.Type) bool {
 			n, ok := t.(*types.Named)
-			return ok && n.Obj().Name() == "TypeList" // the registered transformer does nothing for this type
+			return transformers && ok && n.Obj().Name() == "TypeList" // the registered transformer does nothing for this type
 		}
 		m.Assume("mergo.Merge is modelled: empty destination fields take the source, slices are appended, maps merge key-wise (shared keys deep-merge), nil pointers are shared, TypeList is left to its (no-op) transformer")
 		m.mergoMerge(dp.P, src, pt.Elem(), skip, 0)
 		return Iface{}
 	}
-	e["dario.cat/mergo.WithAppendSlice"] = func(m *Machine, a []Value) Value { return nil }
-	e["dario.cat/mergo.WithTransformers"] = func(m *Machine, a []Value) Value { return (*Closure)(nil) }
+	e["dario.cat/mergo.WithTransformers"] = func(m *Machine, a []Value) Value { return MergoOpt{Name: "transformers"} }
 	e["github.com/google/go-cmp/cmp.Equal"] = func(m *Machine, a []Value) Value {
 		xi, _ := a[0].(Iface)
 		yi, _ := a[1].(Iface)
